@@ -99,6 +99,7 @@ void profile_cfg_more(const std::string &prof, uint64_t seed, RunCfg &c, Rng &r)
     if (c.flags < 0) c.flags = ARES_FLAG_EDNS;
     // "slow machine": in some runs the clock also moves a little at scheduling points although a thread could run
     if (r.chance(prof == "C07B" ? 0.4 : 0.25)) { c.knobs["sched_stall_permille"] = 10 + (int64_t)r.below(90); c.knobs["sched_stall_max_us"] = r.chance(0.5) ? 1500 : 20000; }
+    if (r.chance(0.3)) c.knobs["spurious_permille"] = 20 + (int64_t)r.below(200);
     if (prof == "C07B") {
       if (r.chance(0.7)) c.flags |= ARES_FLAG_STAYOPEN;
       c.flags &= ~ARES_FLAG_USEVC;
@@ -430,7 +431,7 @@ bool profile_plan_more(const RunCfg &c, Rng &r, std::vector<Step> &plan) {
     return true;
   }
   if (p == "C11") {
-    gen(c, r, plan, weights({{S_REQ, 40}, {S_THINK, 18}, {S_CANCEL, 5}, {S_SETSRV, 4}, {S_REINIT, 3}, {S_WAITEMPTY, 8}, {S_QUERYINFO, 6}, {S_DUP, 3}, {S_SAVEOPT, 2}, {S_CSVROUND, 3}, {S_SORTLIST, 2}, {S_LOCAL, 2}, {S_FILE, 2}, {S_INOTIFY, 2}}), 8, 40);
+    gen(c, r, plan, weights({{S_REQ, 40}, {S_THINK, 18}, {S_CANCEL, 5}, {S_SETSRV, 4}, {S_REINIT, 3}, {S_WAITEMPTY, 8}, {S_QUERYINFO, 6}, {S_DUP, 3}, {S_SAVEOPT, 2}, {S_CSVROUND, 3}, {S_SORTLIST, 2}, {S_LOCAL, 2}, {S_FILE, 2}, {S_INOTIFY, 2}, {S_FAULT, 3}}), 8, 40);
     for (auto &s : plan) {
       s.thr = 1 + (int)r.below((uint64_t)(c.nthreads > 0 ? c.nthreads : 2));
       if (s.k == S_THINK) s.a = r.chance(0.6) ? (int64_t)r.below(20) : (r.chance(0.7) ? (int64_t)r.below(600) : (int64_t)r.below(8000));
